@@ -6,6 +6,7 @@ import os
 import pickle
 
 import petl as etl
+from petl.util.materialise import cache as petl_cache
 from hypothesis import strategies as st
 
 from pv import catalog, catgen, gen
@@ -119,6 +120,14 @@ STAGES = {
     "filldown": (lambda t, p: etl.filldown(t, 1), 3),
     "sub": (lambda t, p: etl.sub(t, 3, "x", "y") if p < 0 else etl.convert(t, 0, str), 3),
     "unpack": (lambda t, p: etl.unpack(etl.convert(t, 1, lambda v: [v, v]), 1, ["p%d" % p, "q%d" % p]), 3),
+    # pass-through views that write to a sink while rows flow: releasing a partially consumed iterator must not drain the
+    # source either (the pull counter is read after the iterator has been released)
+    "teecsv": (lambda t, p: etl.teecsv(t, etl.MemorySource()), 3),
+    "teetsv": (lambda t, p: etl.teetsv(t, etl.MemorySource(), write_header=False), 3),
+    "teepickle": (lambda t, p: etl.teepickle(t, etl.MemorySource()), 3),
+    "teehtml": (lambda t, p: etl.teehtml(t, etl.MemorySource()), 3),
+    "cache": (lambda t, p: petl_cache(t), 3),
+    "cache_n": (lambda t, p: petl_cache(t, n=2), 3),
 }
 STAGE_NAMES = sorted(STAGES)
 
